@@ -533,6 +533,18 @@ def checkC10 (c : Case) (t : Transcript) : Option String := Id.run do
           | none => pure ()
         let userPanic := hasMark seg mkUserPanic
         let fault := seg.any fun e => match e with | .raw _ _ .panic _ => true | _ => false
+        -- `clear_poison()` inside the hold (the body ran: no raw fault in this segment)
+        if !fault then
+          for b in ses.body do
+            match b with
+            | .clearPoison cc =>
+              match isPoisonableTop (C.shape cc) with
+              | some p =>
+                may := may.filter (· != p)
+                must := must.filter (·.1 != p)
+                cur := cur.filter (· != p)
+              | none => pure ()
+            | _ => pure ()
         if userPanic || fault then
           for p in ps do
             if !may.contains p then may := p :: may
@@ -599,6 +611,13 @@ def checkC10 (c : Case) (t : Transcript) : Option String := Id.run do
         match must.find? (·.1 == p) with
         | some (_, why) => return some s!"at the end Poisonable {p} is not poisoned after a {why}"
         | none => pure ()
+    -- "a plain Mutex/RwLock is never made unusable by a panic in user code": without raw-lock
+    -- faults no lock ends up killed or still held, whatever panicked in user code
+    let faults := t.evs.any fun e => match e with | .raw _ _ .panic _ => true | _ => false
+    let envActed := t.evs.any fun e => match e with | .envRel _ => true | _ => false
+    let forgets := c.prog.any fun st => match st with | .ses ses => ses.exit == .forget | _ => false
+    if !faults && !envActed && !forgets && t.locks != initialLocks c then
+      return some s!"after user panics only, the locks are not as they were (killed or still held): {t.locks} vs initially {initialLocks c}"
   return none
 
 /-- C01 (thread-local half, checked on every implementation transcript): the rank discipline.
